@@ -16,6 +16,7 @@ B3  the same life cycle on every shipped network.
 """
 import copy
 import json
+import os
 import time
 
 from harness import tlc
@@ -25,7 +26,7 @@ from harness.gnpy_util import EX, TD, NONE
 from harness.checks import c08
 
 ROUNDS = 3
-CLAUSES = ['FixpointElements', 'FixpointSettings', 'FixpointConnections', 'Deterministic', 'PropagationReproduced',
+CLAUSES = ['ExportUnaffectedByPropagation', 'FixpointElements', 'FixpointSettings', 'FixpointConnections', 'Deterministic', 'PropagationReproduced',
            'SimParamsUnchanged']
 
 
@@ -49,7 +50,7 @@ def _amps_on(net, ends):
     return sum(1 for n in p if isinstance(n, (E.Edfa, E.Multiband_amplifier)))
 
 
-def lifecycle(name, doc, eq, rounds=ROUNDS, sig_prefix='B2', feat=''):
+def lifecycle(name, doc, eq, rounds=ROUNDS, sig_prefix='B2', feat='', no_insert=False):
     """record one Design/Export/Load life cycle of the real code; returns (trace or None, violation or None)"""
     from gnpy.tools.json_io import network_to_json
     ev = []
@@ -62,7 +63,7 @@ def lifecycle(name, doc, eq, rounds=ROUNDS, sig_prefix='B2', feat=''):
         for k in range(rounds + 1):
             stage = 'first-design' if k == 0 else f'redesign-round-{k}'
             sim0 = du.sim_snapshot()
-            _, _, net, req, _ = du.design(cur, eq)
+            _, _, net, req, _ = du.design(cur, eq, no_insert_edfas=no_insert)
             sim1 = du.sim_snapshot()
             if k == 0:
                 ev.append(dict(op='Sim', before=sim0, after=sim1))
@@ -73,10 +74,10 @@ def lifecycle(name, doc, eq, rounds=ROUNDS, sig_prefix='B2', feat=''):
             if k == 0:                                        # designing the same input twice ...
                 # ... with the same equipment library having served another design (explicit design power) meanwhile
                 stage = 'design-elsewhere'
-                du.design(doc, eq, args_power=float(eq['SI']['default'].power_dbm) + 3)
+                du.design(doc, eq, args_power=float(eq['SI']['default'].power_dbm) + 3, no_insert_edfas=no_insert)
                 ev.append(dict(op='Elsewhere'))
                 stage = 'twin-design'
-                _, _, net_b, _, _ = du.design(doc, eq)
+                _, _, net_b, _, _ = du.design(doc, eq, no_insert_edfas=no_insert)
                 ev.append(dict(op='Twin', x=du.project_export(json.loads(json.dumps(network_to_json(net_b))), scales)))
             stage = f'propagation-round-{k}'
             vec, where = du.reference_propagation(net, req, eq, *(ends or (None, None)))
@@ -87,7 +88,12 @@ def lifecycle(name, doc, eq, rounds=ROUNDS, sig_prefix='B2', feat=''):
                 # to 1e-6 dB by the export, one micro-dB per amplifier crossed is allowed on top of Tol
                 slack = _amps_on(net, ends) if k == 1 else 0
                 ev.append(dict(op='Propagate', r=vec, slack=slack))
+                if k == 0:      # the network that carried a propagation (possibly saturating amplifiers) is saved again
+                    stage = 'reexport-after-propagation'
+                    ev.append(dict(op='Reexport', x=du.project_export(json.loads(json.dumps(network_to_json(net))), scales)))
             cur = du.as_loadable(json.loads(text))
+    except Machinery:
+        raise
     except Exception as e:                                     # noqa
         msg, tb = du.exc_text(e)
         if stage != 'first-design':                            # a crash of the very first design is C08's finding
@@ -98,7 +104,50 @@ def lifecycle(name, doc, eq, rounds=ROUNDS, sig_prefix='B2', feat=''):
 
 
 def _b2_one(c):
-    return lifecycle(c08.case_name(c), du.render_topology(c), du.equipment_for(c['s']), feat=c17_features(c))
+    return lifecycle(c08.case_name(c), du.render_topology(c), du.equipment_for(c['s']), feat=c17_features(c),
+                     no_insert=not c['s'].get('insert', True))
+
+
+def _history_export(job):
+    """worker (one fresh process per call): design the case's topology with the case's library, after the process
+    has - or has not - already designed the same topology with ANOTHER library that defines amplifiers of the same names
+    differently; returns the exported document (or the exception)"""
+    from gnpy.tools.json_io import network_to_json
+    c, history = job
+    topo = du.render_topology(c)
+    try:
+        for lib in history:
+            du.design(topo, du.equipment_for(c['s'], library=lib))
+        _, _, net, _, _ = du.design(topo, du.equipment_for(c['s']))
+        return json.loads(json.dumps(network_to_json(net))), None
+    except Machinery:
+        raise
+    except Exception as e:                                     # noqa
+        return None, du.exc_text(e)
+
+
+def history_traces(cases, chk):
+    """Deterministic across process histories: export(design(x, A)) in a fresh process vs in a process that designed
+    with library B before; every design runs in its own forked process (maxtasksperchild=1)"""
+    import multiprocessing as mp
+    jobs = [(c, h) for c in cases for h in ((), ('variant', 'tests-data'))]
+    with mp.get_context('fork').Pool(du.n_procs(), maxtasksperchild=1) as pool:
+        res = pool.map(_history_export, jobs, chunksize=1)
+    traces = []
+    for k, c in enumerate(cases):
+        (fresh, e1), (after, e2) = res[2 * k], res[2 * k + 1]
+        name = c08.case_name(c) + ' @process-history'
+        chk.case(name, nontrivial=True)
+        if e2 and not e1:
+            chk.violation(f'B2|exception|design-after-another-library|{e2[0].split(":")[0]}|{c17_features(c)}',
+                          dict(case=name, exception=e2[0], traceback=e2[1]))
+        if e1 or e2:
+            continue
+        scales = {}
+        traces.append(dict(name=name, s=dict(none=1), inp=[], _feat='process-history|' + c17_features(c),
+                           ev=[dict(op='Export', x=du.project_export(fresh, scales)), dict(op='Elsewhere'),
+                               dict(op='Twin', x=du.project_export(after, scales))]))
+    return traces
 
 
 def _b3_one(job):
@@ -112,6 +161,27 @@ def _b3_one(job):
                          sig_prefix=f'B3|{name}')
     finally:
         du.reset_sim()
+
+
+def chain_kind(c):
+    """what a chain is made of, fibre lengths left out except whether the fibre has to be split (>= 95 km) or is a
+    very long link: the class of a case for the quick-tier sample of life cycles"""
+    out = []
+    for e in c['g']:
+        if e['t'] in ('Roadm', 'Transceiver'):
+            if e.get('o'):
+                out.append('roadm+' + e['o'])
+            continue
+        tag = e['t']
+        if e['t'] in ('Fiber', 'RamanFiber'):
+            tag += ('>=95' if 95000 <= e['l'] < 400000 else '>=400' if e['l'] >= 400000 else '') + \
+                   ('+att' if e.get('ai', 0) not in (0, NONE) else '') + ('+' + e['o'] if e.get('o') else '') + \
+                   ('+perfreq' if e.get('ct') else '') + ('+conI' if e['ci'] != NONE else '') + ('+conO' if e['co'] != NONE else '')
+        if e['t'] == 'Edfa':
+            u = e['u'][0]
+            tag += 'full' if u['gain'] != NONE else 'partial' if u['variety'] else 'voa' if u['voa'] != NONE else 'none'
+        out.append(tag)
+    return '-'.join(out) + ('' if c['s'].get('insert', True) else '|noinsert')
 
 
 def settings_l8(c):
@@ -163,6 +233,9 @@ def c17_features(case):
     s = case['s']
     if s['eol'] > 0:
         return 'eol>0'
+    opts = sorted({e['o'] for e in case['g'] if e.get('o') and e['o'] != 'pmd'})     # user parameters beyond the basic ones
+    if opts:
+        return '|'.join(f'opt={o}' for o in opts)
     if any(e.get('ai', 0) not in (0, NONE) for e in case['g']):
         return 'user_att_in'
     raman = any(e['t'] == 'RamanFiber' for e in case['g'])
@@ -173,41 +246,51 @@ def run(chk):
     tier = chk.tier
     t0 = time.time()
     # ---- B1
-    r = tlc.run('MC_DesignLifecycle', cfg_text=lifecycle_cfg('docs'), timeout=3000, tag='c17-docs')
-    chk.add_mc('MC_DesignLifecycle Family=docs MaxRounds=3', r)
-    r2 = tlc.run('MC_DesignLifecycle', cfg_text=lifecycle_cfg('sims', emit=True), timeout=3000, tag='c17-sims')
+    fam = 'docs' if tier == 'thorough' else 'docsq'
+    w = min(int(os.environ.get('VERIF_TLC_WORKERS', '16')), 6)       # small state spaces: more workers only add contention
+    r = tlc.run('MC_DesignLifecycle', cfg_text=lifecycle_cfg(fam), timeout=3000, tag='c17-docs', workers=w)
+    chk.add_mc(f'MC_DesignLifecycle Family={fam} MaxRounds=3', r)
+    r2 = tlc.run('MC_DesignLifecycle', cfg_text=lifecycle_cfg('sims', emit=True), timeout=3000, tag='c17-sims', workers=w)
     chk.add_mc('MC_DesignLifecycle Family=sims (every SimParams setting)', r2)
     chk.exhaustive = True
-    sims = r2.emitted
+    sims = list({json.dumps(x, sort_keys=True): x for x in r2.emitted}.values())     # one per setting (printed per initial state)
     if len(sims) < 48:
         raise Machinery(f'expected 48 SimParams settings from TLC, got {len(sims)}')
     chk.cov['t_b1_s'] = round(time.time() - t0, 1)
     # ---- B2 (a): C08's topologies through the life cycle
-    r3 = tlc.run('MC_DesignStructure', cfg_text=emit_cfg(tier), timeout=3000, tag='c17-emit')
+    r3 = tlc.run('MC_DesignStructure', cfg_text=emit_cfg(tier), timeout=3000, tag='c17-emit', workers=w)
     if not r3.ok or not r3.emitted:
         raise Machinery(f'case enumeration failed: {r3.error}')
     cases = sorted(r3.emitted, key=c08.case_name)
     chk.cov['b2_cases_enumerated'] = len(cases)
     two = [c for c in cases if sum(1 for e in c['g'] if e['t'] == 'Roadm') == 2]
     more = [c for c in cases if sum(1 for e in c['g'] if e['t'] == 'Roadm') > 2]
-    stride = 7 if tier == 'quick' else 5          # coprime with the number of Span settings per topology
-    # 2-ROADM shape: every chain kind x (quick: the strength-3 half fraction of the 16 settings | thorough: all 16);
-    # larger shapes: every stride-th case
-    picked = [c for c in two if tier == 'thorough' or settings_l8(c)] + more[chk.seed % stride::stride]
-    if tier == 'quick':       # a Raman life cycle costs ~3 s (6 Raman estimations + 4 Raman propagations): padding 10, EOL 0
+    stride = 13 if tier == 'quick' else 5         # coprime with the number of Span settings per topology
+
+    def plain(c):     # no user amplifier / attenuator / fibre parameter, no Raman
+        return not any(e['t'] in ('Edfa', 'RamanFiber') or e.get('ai', 0) not in (0, NONE) or e.get('o') or e.get('ct')
+                       for e in c['g'])
+    if tier == 'thorough':
+        # 2-ROADM shape: every chain kind x every Span setting; larger shapes: every 5th case
+        picked = two + more[chk.seed % stride::stride]
+    else:
+        # quick: TLC enumerated the 2-ROADM shape under the strength-3 half fraction of the settings; the life cycles
+        # run under its max_length = 150 km quarter (padding, EOL, mode still pairwise complete), plus the 80 km
+        # quarter for chains with a fibre that only splits there (95 / 151 km); Raman life cycles cost ~3 s
+        # (6 Raman estimations + 4 Raman propagations): padding 10, EOL 0 only; 1200 km links (2 x 13..15 spans): padding 10
+        picked = [c for c in two if c['s']['maxLen'] > 100000 or any(e['l'] in (95000, 151000) for e in c['g'])]
         picked = [c for c in picked if not any(e['t'] == 'RamanFiber' for e in c['g'])
-                  or (c['s']['padding'] > 0 and c['s']['eol'] == 0
-                      and (c['s']['powerMode'] or any(e['t'] == 'Edfa' for e in c['g'])))]
-    if tier == 'quick':
-        # chains without any user setting that a reload could lose or double (no user amplifier / attenuator / fibre
-        # parameter, no Raman, nothing that splits at 80..151 km) run under a quarter of the settings (max_length 150)
-        def plain(c):
-            return not any(e['t'] in ('Edfa', 'RamanFiber') or e.get('ai', 0) not in (0, NONE) or e.get('o') or e.get('ct')
-                           or e['l'] in (95000, 151000) for e in c['g'])
-        picked = [c for c in picked if not plain(c) or c['s']['maxLen'] > 100000]
-    if tier == 'quick':       # a 1200 km link is 2 x 13..15 spans, six designs each: half of its settings
-        picked = [c for c in picked if not any(e['l'] >= 1200000 for e in c['g']) or c['s']['padding'] > 0]
+                  or (c['s']['eol'] == 0 and c['s']['powerMode'] != any(e['t'] == 'Edfa' for e in c['g']))]
+        picked = [c for c in picked if not any(e['l'] >= 400000 for e in c['g']) or c['s']['padding'] > 0]
+        # one chain per kind: chains that differ only in fibre lengths below the maximum behave alike in a life cycle
+        # ... under all four settings of the quarter when a user amplifier is involved, else under its two EOL = 0 ones
+        kinds = {}
+        for c in picked:
+            if c['s']['eol'] == 0 or any(e['t'] == 'Edfa' for e in c['g']):
+                kinds.setdefault((chain_kind(c), json.dumps(c['s'], sort_keys=True)), c)
+        picked = list(kinds.values()) + more[chk.seed % stride::stride]
     du.reset_sim()
+    du.equipment_base('example-data'), du.equipment_base('tests-data'), du.equipment_base('variant')        # parsed once, inherited by the workers
     traces = []
     for c, (tr, viol) in zip(picked, du.parallel_map(_b2_one, picked)):
         chk.case(c08.case_name(c), nontrivial=tr is not None)
@@ -224,6 +307,19 @@ def run(chk):
             chk.sample(dict(kind='B2 life cycle of a TLC-enumerated topology judged by Trace_Design', case=t['name'],
                             events=[e['op'] for e in t['ev']],
                             propagation=[e['r'] for e in t['ev'] if e['op'] == 'Propagate']))
+    # ---- B2 (a'): the same design in processes with different histories (another library used before)
+    hist_cases = [c for c in two if c['s']['eol'] == 0 and c['s']['maxLen'] > 100000 and c['s'].get('insert', True)
+                  and not any(e['t'] == 'RamanFiber' for e in c['g']) and (tier == 'thorough' or plain(c))]
+    if tier == 'quick':
+        hk = {}
+        for c in hist_cases:
+            hk.setdefault(chain_kind(c), c)
+        hist_cases = list(hk.values())
+    ht = history_traces(hist_cases, chk)
+    hv = judge(ht, chk, 'c17-hist')
+    for t in ht:
+        report(t, hv[t['name']], chk, 'B2', t['_feat'])
+    chk.cov['b2_process_history_pairs'] = len(ht)
     chk.cov['t_b2_judged_s'] = round(time.time() - t0, 1)
     # ---- B2 (b): SimParams settings around the real designed_network on Raman topologies
     sim_traces = sim_runs(sims if tier == 'thorough' else pick_sims(sims, chk.seed), chk)
@@ -236,9 +332,8 @@ def run(chk):
     chk.cov['t_sim_s'] = round(time.time() - t0, 1)
     # ---- B3: shipped networks
     pairs = c08.SHIPPED_THOROUGH if tier == 'thorough' else \
-        [p for p in c08.SHIPPED_QUICK if p[0].name not in ('Sweden_OpenROADMv5_example_network.json',
-                                                           'testTopology_expected.json',
-                                                           'perdegreemeshTopologyExampleV2_auto_design_expected.json')]
+        [p for p in c08.SHIPPED_QUICK if p[0].name not in ('Sweden_OpenROADMv4_example_network.json',
+                                                           'twohops_roadm_power_test.json')]
     jobs = [(a, b, ROUNDS if 'CORONET_Global' not in a.name else 2, None) for a, b in pairs]
     # "every simulation-parameter setting in force when design is invoked": with the Raman flag on the design estimates
     # the SRS tilt of every span; the multiband example (thorough: and the mesh) goes through the life cycle like that
@@ -310,26 +405,25 @@ def measured(traces, op):
 
 
 def pick_sims(sims, seed):
-    """quick tier: 8 of the 48 settings, every value of every dimension present"""
+    """quick tier: 6 of the 48 settings, every value of every dimension present"""
     key = lambda s: (s['flag'], s['method'], s['order'], s['resultRes'], s['nli'], s['ncc'])   # noqa
     srt = sorted(sims, key=key)
-    return srt[seed % 6::6]
+    return srt[seed % 8::8]
 
 
 RAMAN_LINE = {'g': None}
 
 
 def raman_b2_topology():
-    """2-ROADM topology with the surviving Raman chain Fiber UserAmp(full) RamanFiber (as enumerated for C08)"""
+    """2-ROADM topology Fiber RamanFiber (as enumerated for C08): the amplifier in front of the Raman fibre is left to
+    the design, which therefore estimates the Raman gain both before and after the input power is known"""
     F = lambda n, s: dict(n=n, t='Fiber', l=80000, c=200, v='SSMF', ci=NONE, co=NONE, ai=0, lo=0, u=[], s=s)   # noqa
     g = [dict(n='roadm A', t='Roadm', l=0, c=0, v='', ci=NONE, co=NONE, ai=NONE, lo=0, u=[], s=[3, 5]),
-         dict(n='roadm B', t='Roadm', l=0, c=0, v='', ci=NONE, co=NONE, ai=NONE, lo=0, u=[], s=[4, 8]),
+         dict(n='roadm B', t='Roadm', l=0, c=0, v='', ci=NONE, co=NONE, ai=NONE, lo=0, u=[], s=[4, 7]),
          dict(n='trx A', t='Transceiver', l=0, c=0, v='', ci=NONE, co=NONE, ai=NONE, lo=0, u=[], s=[1]),
          dict(n='trx B', t='Transceiver', l=0, c=0, v='', ci=NONE, co=NONE, ai=NONE, lo=0, u=[], s=[2]),
          F('Fiber AB1', [6]),
-         dict(n='Edfa AB2', t='Edfa', l=0, c=0, v='std_medium_gain', ci=NONE, co=NONE, ai=NONE, lo=0,
-              u=[dict(variety='std_medium_gain', gain=18000000, voa=1000000, dp=1000000)], s=[7]),
-         dict(n='RamanFiber AB3', t='RamanFiber', l=80000, c=200, v='SSMF', ci=500000, co=500000, ai=0, lo=0, u=[], s=[2]),
+         dict(n='RamanFiber AB2', t='RamanFiber', l=80000, c=200, v='SSMF', ci=500000, co=500000, ai=0, lo=0, u=[], s=[2]),
          F('Fiber BA1', [1])]
     return dict(g=g, s=dict(padding=10000000, eol=0, maxLen=150000, powerMode=True, conIn=300000, conOut=400000))
 
@@ -344,13 +438,15 @@ def sim_runs(sims, chk):
     try:
         for k, sp in enumerate(sims):
             ev = []
-            for which, doc, e in (('raman_edfa_example', raman_doc, eq), ('F-Afull-R', b2_doc, b2_eq)):
-                if which == 'F-Afull-R' and k % 4:
-                    continue                                   # the 2-ROADM Raman line on a quarter of the settings
+            for which, doc, e in (('raman_edfa_example', raman_doc, eq), ('F-R', b2_doc, b2_eq)):
+                if which == 'F-R' and k % 2:
+                    continue                                   # the 2-ROADM Raman line on every other setting
                 du.set_sim(sp)
                 before = du.sim_snapshot()
                 try:
                     du.design(doc, e)
+                except Machinery:
+                    raise
                 except Exception as ex:                        # noqa
                     msg, tb = du.exc_text(ex)
                     chk.violation(f'B2sim|exception|{type(ex).__name__}|{which}', dict(sim=sp, exception=msg, traceback=tb))
